@@ -425,6 +425,7 @@ End Run.
 (* ---- what a markup-valued declaration exports ---- *)
 (* [its] at [vs, vs + |its|): its flat list, and the tokens any run on that range reads *)
 Definition UseOK (text : bytes) (vs : N) (its : list uitem) : Prop :=
+  mem_b 60 (X4.r_uitems its) = true /\ mem_b 38 (X4.r_uitems its) = false /\
   exists fl, build fl = ([], its) /\ flat_ok fl /\ fbal [] fl /\ r_flat fl = X4.r_uitems its /\
     forall es, stream_from_substr text vs (vs + blen (X4.r_uitems its)) = Ok es ->
       exists s', parse_content text (list token) ev_log es [] = Ok (s', ftoks vs fl).
@@ -437,7 +438,7 @@ Lemma use_tokens text vs its C ev es c s' c' : UseOK text vs its ->
   parse_content text C ev es c = Ok (s', c') ->
   exists fl, build fl = ([], its) /\ flat_ok fl /\ fbal [] fl /\ r_flat fl = X4.r_uitems its /\ evs C ev (ftoks vs fl) c = Ok c'.
 Proof.
-  intros (fl & Eb & Hok & Hbal & Er & Hlog) Es H. destruct (Hlog es Es) as (s1 & Hl).
+  intros (_ & _ & fl & Eb & Hok & Hbal & Er & Hlog) Es H. destruct (Hlog es Es) as (s1 & Hl).
   unfold parse_content in H, Hl.
   destruct (run_tokens _ _ _ _ _ _ _ _ _ [] H) as (toks & L1 & E1). rewrite Hl in L1. injection L1 as _ L1. cbn [app] in L1. subst toks.
   exists fl. auto 6.
